@@ -15,6 +15,11 @@ def one(objtype, label):
         from vf.pyvc.values import CList
         return ex.alloc(CList((ex.make(f"{name}[0]", objtype, f"{name}[0]"),)), name)
     build.label = label
+
+    def native(rnd):
+        from vf.pyvc import rtc
+        return [(lambda mk=mk: [rtc.materialise(mk)]) for mk in rtc.values(objtype, rnd)]
+    build.native = native
     return build
 
 
